@@ -205,6 +205,78 @@ def generated_context(repo, workdir, name, text, types, pool_types, restrict_siz
     return cx
 
 
+def raw_layout_table(name, records, members, include_dirs, workdir):
+    """sizeof/alignof of the raw records and offsetof of their members, evaluated by g++ on the generated <name>.pp.hpp"""
+    src = os.path.join(workdir, 'rawsizes.cpp')
+    with open(src, 'w') as f:
+        f.write('#include <cstdio>\n#include <cstddef>\n#include "%s.pp.hpp"\nint main() {\n' % name)
+        for r in records:
+            f.write('    printf("S %s %%zu %%zu\\n", sizeof(%s), __alignof__(%s));\n' % (r, r, r))
+        for r, m in members:
+            f.write('    printf("O %s %s %%zu\\n", offsetof(%s, %s));\n' % (r, m, r, m))
+        f.write('    return 0;\n}\n')
+    exe = os.path.join(workdir, 'rawsizes')
+    cmd = ['g++', '-std=c++11', '-w', '-Wno-invalid-offsetof']
+    for d in include_dirs:
+        cmd += ['-I', d]
+    p = subprocess.run(cmd + [src, '-o', exe], stdout=subprocess.PIPE, stderr=subprocess.STDOUT)
+    if p.returncode != 0:
+        raise A.AstError('g++ (raw layout helper): ' + p.stdout.decode('utf-8', 'replace')[-1500:])
+    sizes, offs = {}, {}
+    for ln in subprocess.run([exe], stdout=subprocess.PIPE).stdout.decode().splitlines():
+        parts = ln.split()
+        if parts[0] == 'S':
+            sizes[parts[1]] = (int(parts[2]), int(parts[3]))
+        else:
+            offs[(parts[1], parts[2])] = int(parts[3])
+    return sizes, offs
+
+
+def swap_context(repo, workdir, name, text, types, pool_types):
+    from contracts import cxx_swap as S
+    src = os.path.join(workdir, name + '.prophy')
+    with open(src, 'w') as f:
+        f.write(text)
+    env = dict(os.environ, PYTHONPATH=repo)
+    p = subprocess.run([VENV_PY, '-m', 'prophyc', '--cpp_out', workdir, src], stdout=subprocess.PIPE,
+                       stderr=subprocess.STDOUT, env=env, cwd=workdir)
+    if p.returncode != 0:
+        raise A.AstError('prophyc: ' + p.stdout.decode('utf-8', 'replace')[-1500:])
+    inc = [include_dir(repo), workdir]
+    ix = A.load(os.path.join(workdir, name + '.pp.cpp'), inc, 'prophy')
+    allt = list(pool_types) + list(types)
+    members = []
+    for t in allt:
+        members += S.designators(t)
+    records = sorted(set(r for r, _ in members))
+    sizes, offs = raw_layout_table(name, records, members, inc, workdir)
+    from specs import wire as W
+    for t in allt:
+        if isinstance(t, W.Union) and t.arms:
+            offs[(t.name, '')] = offs[(t.name, t.arms[0].name)]       # the anonymous union holding the arms
+    cx = V.Cx(ix, S.all_contracts([t.name for t in allt]), sizes)
+    cx.raw_offsets = offs
+    cx.types = S.type_table(allt)
+    cx.extra_enums = set(S.enum_names(allt))
+    return cx
+
+
+def check_swap_unit(repo, name, text, types, pool_types, timeout_ms=20000, jobs=1, verify_pool=True):
+    work = tempfile.mkdtemp(prefix='cxxvc-swap-')
+    try:
+        cx = swap_context(repo, work, name, text, types, pool_types)
+        names = set(t.name for t in types) | (set(t.name for t in pool_types) if verify_pool else set())
+
+        def sel(q):
+            if q.startswith('prophy::swap<') or '::swap<' in q:
+                return any(('swap<%s>' % n) in q for n in names)
+            return verify_pool            # the header leaves (scalar swaps, swap_n_*, cast): once, with the pool
+        res = verify_all('swap-' + name, cx, 'C09', timeout_ms, jobs, sel)
+        return finish(res, cx, repo)
+    finally:
+        shutil.rmtree(work, ignore_errors=True)
+
+
 def check_generated_unit(repo, name, text, types, pool_types, prop=None, timeout_ms=20000, jobs=1, restrict_sizers=True,
                          only=None, verify_pool=True):
     work = tempfile.mkdtemp(prefix='cxxvc-gen-')
